@@ -40,6 +40,9 @@ type c18Case struct {
 	Src     c18Val
 	Dst     string // copy: empty | filled | other-repr | other-repr-filled | other-type | non-proto
 	DstFill c18Val `json:",omitempty"`
+	// Poison: the adapter has just been through copies that fail (a dynamic message whose string field is not
+	// valid UTF-8 into a generated one; a message into a non-message); a failure leaves nothing behind
+	Poison bool `json:",omitempty"`
 }
 
 func c18New(typ string) proto.Message {
@@ -214,6 +217,18 @@ func propC18(c c18Case) *Outcome {
 		o.class("dst=%s", c.Dst)
 	}
 	cl := c18Adapter(c.Adapter)
+	if c.Poison {
+		o.class("after-failed-copies")
+		func() {
+			defer func() { recover() }()
+			bad := dynamic.NewMessage(c18Desc("trailer"))
+			bad.TrySetFieldByName("code", int32(77))
+			bad.TrySetFieldByName("message", "poison-\xff\xfe")
+			cl.Copy(new(httpgrpc.HttpTrailer), bad)
+			cl.Copy(dynamic.NewMessage(c18Desc("msg")), bad)
+			cl.Copy(&c18NonProto{}, bad)
+		}()
+	}
 	src := c.Src.build()
 	srcBefore, _ := c18Wire(src)
 	srcCanon, _ := c18Canon(c.Src.Type, src)
@@ -373,6 +388,7 @@ var c18Types = []string{"msg", "msg", "msg", "trailer", "trailer", "struct", "an
 
 func genC18(t *rapid.T) c18Case {
 	c := c18Case{Adapter: rapid.SampledFrom([]string{"proto", "codec", "clonefunc", "copyfunc"}).Draw(t, "adapter"), Op: rapid.SampledFrom([]string{"clone", "copy", "copy"}).Draw(t, "op")}
+	c.Poison = rapid.IntRange(0, 4).Draw(t, "poison") == 0
 	typ := rapid.SampledFrom(c18Types).Draw(t, "type")
 	c.Src = genC18Val(t, "src", typ)
 	dynOK := typ == "msg" || typ == "trailer"
